@@ -367,3 +367,43 @@ func TestC01_Positional(t *testing.T) {
 	}
 	col("C01").Completed("TestC01_Positional")
 }
+
+// TestC01_BigMutated: invalid tokens inside documents that span several index buffers (> 1408 structurals) and the
+// 8 KiB threshold: an error found in an early buffer must survive until the verdict, wherever it is.
+func TestC01_BigMutated(t *testing.T) {
+	runRapid(t, "C01_BigMutated", nCases(6_000, 150_000), func(t *rapid.T) {
+		text, shape := genShape(t)
+		if len(text) > 400_000 {
+			text = append(append([]byte(nil), text[:400_000]...), ']')
+		}
+		in, kind := mutateBytes(t, text)
+		c01Eval(t, in, "gen:big-mutated", "shape:"+shape, "bytemut:"+kind)
+	})
+	col("C01").Completed("TestC01_BigMutated")
+}
+
+// TestC01_AtomInBigDoc: every atom as the first, a middle and the last element of an array that needs 1..18 index buffers.
+func TestC01_AtomInBigDoc(t *testing.T) {
+	idx := 0
+	fills := []int{800, 1500, 3000, 12000}
+	if thorough() {
+		fills = []int{700, 800, 1500, 3000, 6000, 12000, 25000}
+	}
+	for ai, atom := range c01Atoms {
+		for fi, n := range fills {
+			idx++
+			if idx%envNShards != envShard {
+				continue
+			}
+			if !thorough() && (ai+fi)%2 != 0 {
+				continue
+			}
+			filler := strings.Repeat("1,", n)
+			c01Eval(t, []byte("["+atom+","+filler+"1]"), "gen:atom-in-big-doc", "pos:first")
+			c01Eval(t, []byte("["+filler+atom+"]"), "gen:atom-in-big-doc", "pos:last")
+			c01Eval(t, []byte("["+strings.Repeat("1,", n/2)+atom+","+strings.Repeat("[],", n/3)+"1]"), "gen:atom-in-big-doc", "pos:middle")
+			c01Eval(t, []byte(`{"k":`+atom+`,"f":[`+filler+`1]}`), "gen:atom-in-big-doc", "pos:first-object")
+		}
+	}
+	col("C01").Completed("TestC01_AtomInBigDoc")
+}
